@@ -112,6 +112,14 @@ func (d *DHCP) Len() (n uint16) {
 	return
 }
 
+// ip4Bytes returns the four bytes an IPv4 address occupies in the fixed header
+// (the underlying representation of a net.IP can be 16 bytes, or nil).
+func ip4Bytes(ip net.IP) []byte {
+	b := make([]byte, 4)
+	copy(b, ip.To4())
+	return b
+}
+
 func (d *DHCP) Read(b []byte) (n int, err error) {
 	buf := new(bytes.Buffer)
 	binary.Write(buf, binary.BigEndian, d.Operation)
@@ -128,13 +136,13 @@ func (d *DHCP) Read(b []byte) (n int, err error) {
 	n += 2
 	binary.Write(buf, binary.BigEndian, d.Flags)
 	n += 2
-	binary.Write(buf, binary.BigEndian, d.ClientIP)
+	binary.Write(buf, binary.BigEndian, ip4Bytes(d.ClientIP))
 	n += 4
-	binary.Write(buf, binary.BigEndian, d.YourIP)
+	binary.Write(buf, binary.BigEndian, ip4Bytes(d.YourIP))
 	n += 4
-	binary.Write(buf, binary.BigEndian, d.ServerIP)
+	binary.Write(buf, binary.BigEndian, ip4Bytes(d.ServerIP))
 	n += 4
-	binary.Write(buf, binary.BigEndian, d.GatewayIP)
+	binary.Write(buf, binary.BigEndian, ip4Bytes(d.GatewayIP))
 	n += 4
 	clientHWAddr := make([]byte, 16)
 	copy(clientHWAddr[0:], d.ClientHWAddr)
